@@ -304,7 +304,7 @@ class VariableCovarianceGaussian(Likelihood):
         """
         # TODO: test by drawing synthetic data that actually follows the
         # noise-cov and then average over it
-        fct = jnp.sqrt(1 + self.iscomplex)
+        fct = (1 + self.iscomplex) ** 0.5
         res = (
             primals[1] * (primals[0] - self.data),
             fct * tree_map(jnp.log, primals[1]),
